@@ -136,6 +136,9 @@ func runC08(c *fw.Case) (o fw.Outcome) {
 			}
 		}
 		cut := present[r.Intn(len(present)-1)] // boundary: everything after optional IE "cut"
+		if r.Intn(len(present)) == 0 {
+			cut = -1 // everything after the mandatory part: what is left when the FIRST optional IE is examined
+		}
 		if last > cut {
 			full, e1 := nasEncodeVia(nv)
 			head, e2 := nasEncodeVia(genCopyWithMask(nv, mask&(1<<uint(cut+1)-1)))
@@ -144,6 +147,10 @@ func runC08(c *fw.Case) (o fw.Outcome) {
 				delta := ((-suffix+r.Intn(9)-4)%256 + 256) % 256
 				if r.Intn(3) == 0 {
 					delta += 256 * (1 + r.Intn(3))
+				}
+				if r.Intn(6) == 0 && suffix < 65536 { // ... or a multiple of 65536: counters narrowed to 16 bits
+					delta = 65536 + r.Intn(20) - 3 - suffix
+					o.Tag("aimed-remainder-65536")
 				}
 				f := nv.Msg.Elem().Field(opts[last].Index).Elem()
 				_, ln, _, buffer := memberFields(opts[last].Type)
